@@ -541,7 +541,7 @@ theorem decodeCompressedLoop_static (T : Tables) (edition s4max : Nat) (g : Rang
             todos := List.replicate (k + 1) ns, pendingDelayed := false } tail
           hf' hrest hps rfl rfl (by simp [hdl, hlen]) rfl hI2 hb2
         refine ⟨st', ?_, hinv, htd, ?_, hbt⟩
-        · cases ht : n1.enc.type <;> simp only [ht] at e2 ⊢ <;>
+        · cases ht : n1.enc.type <;> simp only [ht, readBody] at e2 ⊢ <;>
             first
               | (simp only [e2, hddos, hpend, Bool.not_false, Bool.true_and]; exact e)
               | (simp only [Option.some.injEq, Prod.mk.injEq] at e2
